@@ -151,6 +151,29 @@ def obligations(r, tier, seed):
             k.same(a.to_array(), before_a, "iadd-boxplus/operand-untouched")
         obs.append(Ob("C09/%s/iadd-delegates" % T, iadd, funcs=["graphslam.pose.base_pose.BasePose.__iadd__"]))
 
+    # ---- identity() is the identity on EVERY call: what an earlier caller did to the object it was given must not matter
+    for T in TYPES:
+        def fresh_identity(k, T=T):
+            from gsv.kernel import POSE_N
+            cls = k.pose_cls(T)
+            e1 = cls.identity()
+            try:
+                e1[...] = 5                  # the caller owns what it was given (a read-only constant would refuse: equally fine)
+            except ValueError:
+                pass
+            e2 = cls.identity()
+            a = k.pose(T, "a")
+            qa = lie.quat(a) if T == "SE3" else None
+            pose_eq(k, T, a + e2, lie.hom(k.np, T, a), "a (+) identity() == a, after an earlier identity() object was overwritten", qa)
+            pose_eq(k, T, e2 + a, lie.hom(k.np, T, a), "identity() (+) a == a, after an earlier identity() object was overwritten", qa)
+            e3 = cls.identity()
+            try:
+                e3 -= k.np.array([1.0] * POSE_N[T])      # ndarray in-place operators other than += act in place
+            except ValueError:
+                pass
+            pose_eq(k, T, a + cls.identity(), lie.hom(k.np, T, a), "a (+) identity() == a, after an in-place operator on an earlier identity() object", qa)
+        obs.append(Ob("C09/%s/identity-is-fresh-on-every-call" % T, fresh_identity, funcs=[FUNCS[T] + ".identity"]))
+
     # ---- every operation is a function of the values the operands hold when it is called: poses are mutable arrays, so all
     #      operations are queried in a first concrete state, the operands are overwritten in place, and all are queried again
     for T in TYPES:
